@@ -1087,6 +1087,7 @@ func c12Check(tier string, ev *Evidence) ([]string, error) {
 	if err != nil {
 		return nil, err
 	}
+	var bigFull *sDoc
 	cases := []schemaCase{{name: "ref", doc: srcDoc, types: srcTypes, docPath: filepath.Join(repoDir, "source/fix44.xml"), typesPath: filepath.Join(repoDir, "source/types.xml"), description: "source/fix44.xml"}}
 	// the large test schema with its deliberate duplicate message type removed
 	if bigDoc, bigTypes, err := load(filepath.Join(repoDir, "generator/testdata/fix.4.4.xml"), filepath.Join(repoDir, "generator/testdata/types.xml")); err == nil {
@@ -1100,6 +1101,7 @@ func c12Check(tier string, ev *Evidence) ([]string, error) {
 			ms = append(ms, m)
 		}
 		bigDoc.Messages = ms
+		bigFull = bigDoc
 		if tier != "quick" {
 			cases = append(cases, schemaCase{name: "big", doc: bigDoc, types: bigTypes, description: "generator/testdata/fix.4.4.xml without the duplicate message type"})
 		} else {
@@ -1125,6 +1127,16 @@ func c12Check(tier string, ev *Evidence) ([]string, error) {
 		if len(viol) >= 12 {
 			break // enough counterexamples; the remaining schemas would only repeat them
 		}
+	}
+
+	// ---- one generated type per group name vs. several declarations of that name ----
+	// The generator keeps one type per group name and builds it from the last declaration. Where a
+	// shipped schema declares the name with different member lists, the generated entry type cannot
+	// be "the schema's members in schema order" for every place of use (the symbolic checks above
+	// establish that it is the last declaration's). Each such group is reported once per schema.
+	viol = append(viol, groupConflicts(srcDoc, "source/fix44.xml")...)
+	if bigFull != nil {
+		viol = append(viol, groupConflicts(bigFull, "generator/testdata/fix.4.4.xml")...)
 	}
 
 	// ---- concrete side conditions (no solver involved) ----
@@ -1274,4 +1286,72 @@ func declDiff(a, b string) string {
 		}
 	}
 	return ""
+}
+
+// groupConflicts lists the group names that a schema declares with member lists that cannot all be
+// served by the one generated type: some declaration is not an order-preserving sub-list (by member
+// kind and name) of the last declaration, from which the type is built. (A declaration that is such
+// a sub-list only gains accessors for members it does not use; wire order and values are the
+// schema's, so that is not reported.)
+func groupConflicts(d *sDoc, file string) []string {
+	type decl struct {
+		ctx string
+		ms  []string
+	}
+	decls := map[string][]decl{}
+	var order []string
+	var walk func(ctx string, ms []*sMember)
+	walk = func(ctx string, ms []*sMember) {
+		for _, m := range ms {
+			if m.XMLName.Local == "group" {
+				var l []string
+				for _, x := range m.Members {
+					l = append(l, x.XMLName.Local+" "+x.Name)
+				}
+				if _, ok := decls[m.Name]; !ok {
+					order = append(order, m.Name)
+				}
+				decls[m.Name] = append(decls[m.Name], decl{ctx, l})
+			}
+			walk(ctx, m.Members)
+		}
+	}
+	for _, m := range d.Messages {
+		walk("message "+m.Name, m.Members)
+	}
+	for _, c := range d.Components {
+		walk("component "+c.Name, c.Members)
+	}
+	if d.Header != nil {
+		walk("header", d.Header.Members)
+	}
+	if d.Trailer != nil {
+		walk("trailer", d.Trailer.Members)
+	}
+	var out []string
+	for _, name := range order {
+		ds := decls[name]
+		last := ds[len(ds)-1]
+		for _, x := range ds {
+			// is x.ms a subsequence of last.ms?
+			j := 0
+			missing := ""
+			for _, m := range x.ms {
+				for j < len(last.ms) && last.ms[j] != m {
+					j++
+				}
+				if j == len(last.ms) {
+					missing = m
+					break
+				}
+				j++
+			}
+			if missing != "" {
+				out = append(out, fmt.Sprintf("c12 group-conflict schema=%s group=%s: the one generated type %s is built from the last declaration (%s, %d members); %s declares %d members and its member '%s' is missing from the generated type or out of schema order",
+					file, name, entryType(name), last.ctx, len(last.ms), x.ctx, len(x.ms), missing))
+				break
+			}
+		}
+	}
+	return out
 }
